@@ -17,13 +17,13 @@ when and in which order is part of every history (TLC's behaviours contain reads
 read patterns in varying orders, some histories read everything after every step, others run 2..300 increments
 across a boundary before the first read), and every returned value is judged against the tracked value.
 Verdict: only values returned by Get/SQN/Overflow; the raw word is information."""
-import json, os, sys
+import time, json, os, sys
 sys.path.insert(0, os.path.dirname(os.path.dirname(os.path.abspath(__file__))))
 from vlib import *
 
 META = dict(
     property_id="C11", engine="tlc-nascount",
-    technique="TLC exhaustive model of the 24-bit counter (all 2^24 values in thorough); every window-model edge and TLC-simulated walks replayed on the real Count; recorded histories (every carry, the wrap) trace-validated by TLC; per-operation function tables over the whole state space compared by digest (driver folds the implementation, TLC folds the specification)",
+    technique="TLC exhaustive model of the 24-bit counter (all 2^24 values in thorough), the same laws shown inductive for unbounded arguments by Apalache (NasCountInd, with a refuted negative control); every window-model edge and TLC-simulated walks replayed on the real Count; recorded histories (every carry, the wrap) trace-validated by TLC; per-operation function tables over the whole state space compared by digest (driver folds the implementation, TLC folds the specification)",
     level=("model_checking", "The counter is a one-variable state machine: TLC checks the invariant and the action properties of the specification from every one of the 2^24 values (thorough; boundary window in quick); the real Count is bound to it by executing every edge of the window model, TLC-chosen walks and recorded histories whose every step is judged by TLC tracking the value, and by comparing the implementation's complete function table per operation (all 2^24 states in thorough) with the specification's through weighted sums modulo three primes computed independently by the driver and by TLC.", "7/C11"),
     level_note="Trusted: TLC, the Go runtime, the verif raw hook (used to place the counter; verdicts use Get/SQN/Overflow only). Digest equality leaves a collision probability < 1e-13 per chunk. Setter arguments in the digests are boundary values; arbitrary arguments are covered by the seeded histories only.",
 )
@@ -85,11 +85,46 @@ def hist_of(evs):
     return h
 
 
+def apalache_inductive(c, sd):
+    """Model side, unbounded in the arguments: Apalache (symbolic, SMT) checks that the counter laws are INDUCTIVE for every
+    argument value of every operation - IndInv (0 <= c < 2^24 and c = overflow*256 + sqn with both digits in range) holds after any
+    step from any state satisfying it, and StepLaws (the property's action clauses) holds on every such step.  TLC's exhaustive
+    runs cover all 2^24 states with argument subsets; this covers all arguments.  A deliberately wrong modulus must be refuted
+    (negative control).  Infrastructure only: a failure here is a problem of the specification, never a verdict about the code."""
+    import shutil as _sh, subprocess as _sp
+    if not _sh.which("apalache-mc"):
+        c.note("apalache-mc not found: the unbounded inductive check of NasCountInd was skipped"); return
+    d = os.path.join(c.scratch, "apalache-c11"); os.makedirs(d, exist_ok=True)
+    src = open(os.path.join(sd, "NasCountInd.tla")).read()
+    open(os.path.join(d, "NasCountInd.tla"), "w").write(src)
+    bad = src.replace("MODULE NasCountInd", "MODULE NasCountBad").replace("c' = (c + 1) % M", "c' = (c + 1) % (M + 1)")
+    if bad.count("(M + 1)") != 1: raise Infra("negative control of NasCountInd could not be derived")
+    open(os.path.join(d, "NasCountBad.tla"), "w").write(bad)
+    def run(mod, inv):
+        t = time.time()
+        r = _sp.run(["timeout", "300", "apalache-mc", "check", "--init=IndInit", "--inv=" + inv, "--length=1", "--out-dir=" + os.path.join(d, "out"), mod + ".tla"],
+                    cwd=d, capture_output=True, text=True)
+        ok = "The outcome is: NoError" in r.stdout
+        err = "The outcome is: Error" in r.stdout
+        if not ok and not err: raise Infra("apalache did not finish on %s/%s:\n%s" % (mod, inv, (r.stdout + r.stderr)[-1500:]))
+        return ok, round(time.time() - t, 1)
+    res = []
+    for inv in ("IndInv", "StepLaws"):
+        ok, w = run("NasCountInd", inv)
+        if not ok: raise Infra("NasCountInd: %s is not inductive (spec-level problem)" % inv)
+        res.append(dict(engine="apalache", module="NasCountInd", invariant=inv, init="IndInit", length=1, outcome="NoError", wall_s=w))
+    ok, w = run("NasCountBad", "IndInv")
+    if ok: raise Infra("negative control: the wrong modulus was not refuted by Apalache")
+    res.append(dict(engine="apalache", module="NasCountBad (modulus 2^24+1)", invariant="IndInv", outcome="Error (as required)", wall_s=w))
+    c.cov["stage_a_unbounded"] = res
+
+
 def run(c):
     thorough = c.tier == "thorough"
     sd = c.spec_dir("specA")
     # ---- stage A: window model always; all 2^24 values in thorough
     c.stage_a(sd, "MC_C11", "MC_C11", workers=6, timeout=900)
+    apalache_inductive(c, sd)
     if thorough:
         c.stage_a(sd, "MC_C11", "MC_C11_full", workers=12, timeout=3000, xmx="12g")
     # ---- stage B (ii): every edge of the window model
